@@ -262,8 +262,8 @@ static void index_small_one(const IdxCase &c, pbt::Ctx &ctx)
 
 static void index_small_sweep(pbt::SweepResult<IdxCase> &r)
 {
-  const int N3 = tierThorough() ? 28 : 16;  // DESIGN asks for >= [1..6]^3
-  const int N2 = tierThorough() ? 160 : 64; // DESIGN asks for >= [1..12]^2
+  const int N3 = tierThorough() ? 28 : 18;  // DESIGN asks for >= [1..6]^3
+  const int N2 = tierThorough() ? 160 : 80; // DESIGN asks for >= [1..12]^2
   ull ext3 = 0, ext2 = 0, zero = 0;
   IdxCase cur;
   long long at = -1;
@@ -723,9 +723,9 @@ static void register_properties()
 {
   pbt::sweep<IdxCase>("index_small", index_small_sweep, index_small_one);
   pbt::sweep<RegCase>("for_each_small", region_sweep, region_one);
-  pbt::property<BigCase>("mdis3_large", 20000, genBig(3, 44, 63), mdis3_large);
-  pbt::property<BigCase>("mdis2_large", 12000, genBig(2, 62, 63), mdis2_large);
-  pbt::property<BigCase>("long3_large", 20000, genBig(3, 31, 62), long3_large);
-  pbt::property<RegCase>("for_each_limits", 10000, genRegionLimits(), region_one);
+  pbt::property<BigCase>("mdis3_large", 40000, genBig(3, 44, 63), mdis3_large);
+  pbt::property<BigCase>("mdis2_large", 25000, genBig(2, 62, 63), mdis2_large);
+  pbt::property<BigCase>("long3_large", 40000, genBig(3, 31, 62), long3_large);
+  pbt::property<RegCase>("for_each_limits", 20000, genRegionLimits(), region_one);
 }
 PBT_MAIN("C17_index")
